@@ -32,6 +32,29 @@ where
 	Ok(child)
 }
 
+/// Get next available key under the given account path, which is not
+/// necessarily the wallet's currently active account (operations can name
+/// the account they work on)
+pub fn next_available_key_for<'a, T: ?Sized, C, K>(
+	wallet: &mut T,
+	keychain_mask: Option<&SecretKey>,
+	parent_key_id: &Identifier,
+) -> Result<Identifier, Error>
+where
+	T: WalletBackend<'a, C, K>,
+	C: NodeClient + 'a,
+	K: Keychain + 'a,
+{
+	let active = wallet.parent_key_id();
+	if active == *parent_key_id {
+		return wallet.next_child(keychain_mask);
+	}
+	wallet.set_parent_key_id(parent_key_id.clone());
+	let child = wallet.next_child(keychain_mask);
+	wallet.set_parent_key_id(active);
+	child
+}
+
 /// Retrieve an existing key from a wallet
 pub fn retrieve_existing_key<'a, T: ?Sized, C, K>(
 	wallet: &T,
